@@ -81,7 +81,9 @@ def replay_known(pid):
         o = aglib.run_impl_one(w['query'], ''.join(w['input']).encode('utf8'), w.get('mode', 'json'))
         out = o['out'].decode('utf8', 'replace').strip()
         still = True
-        if w.get('correct_stderr_has') is not None:
+        if w.get('correct_stdout_has') is not None:
+            still = w['correct_stdout_has'] not in o['out'].decode('utf8', 'replace')
+        elif w.get('correct_stderr_has') is not None:
             still = w['correct_stderr_has'] not in o['err'].decode('utf8', 'replace')
         elif w.get('correct_output') is not None:
             still = (out != w['correct_output'])
